@@ -23,7 +23,7 @@ ASSUMPTIONS = [
     "constraints built by fromfile are read back through the public value() of their functions at unit points",
     "solve agreement is judged only when both solves return a status other than 'unknown', the file's LP meets the rank conditions of solvers.lp, its optimal value is insensitive to the 6-digit rounding (HiGHS on exact vs rounded data within 1e-5) and the original op itself agrees with HiGHS (op.solve itself is C12's business)",
 ]
-REQUIRED_COUNTERS = ["kind.roundtrip", "kind.file", "kind.nonlp", "check.writer.rows", "check.writer.columns",
+REQUIRED_COUNTERS = ["lp.earlier-export-of-a-subproblem", "kind.roundtrip", "kind.file", "kind.nonlp", "check.writer.rows", "check.writer.columns",
                      "check.writer.free-bounds", "check.reader.rows", "check.reader.objective", "check.roundtrip.solve",
                      "check.file.rows", "check.file.objective-constant", "check.nonlp.refused",
                      "row.N", "row.L", "row.G", "row.E", "range.L+", "range.L-", "range.G+", "range.G-", "range.E+", "range.E-",
@@ -306,6 +306,18 @@ def run(ctx):
         except S.Abort:
             ctx.count("skipped.expression-defect")
             return
+        if len(rcons) >= 2 and rng.random() < 0.3:
+            # an earlier export of a smaller problem over the same constraint and variable objects (first constraint left
+            # out): writing a file must not change what a later export of the full problem writes
+            ctx.count("lp.earlier-export-of-a-subproblem")
+            path0 = tmpfile()
+            try:
+                M.op(obj, rcons[1:]).tofile(path0)
+            except Exception:
+                ctx.count("lp.earlier-export-raised")
+            finally:
+                try: os.unlink(path0)
+                except OSError: pass
         p = M.op(obj, rcons, P["opname"])
         path = tmpfile()
         try:
